@@ -513,8 +513,8 @@ def run(ctx):
     import sqlalchemy as sa
 
     warnings.simplefilter("ignore", sa.exc.SAWarning)
-    nseq = ctx.pick({"quick": 14, "thorough": 160})
-    length = ctx.pick({"quick": 9, "thorough": 30})
+    nseq = ctx.pick({"quick": 14, "thorough": 90})
+    length = ctx.pick({"quick": 9, "thorough": 24})
     for k in range(nseq):
         if not ctx.budget_ok():
             break
